@@ -100,6 +100,8 @@ func exprPool(class string) []string {
 			"all(Ss, {# matches (\"(\" + \"a\")})",
 			// a pointer to a map where a map is expected
 			"S in PM", "\"a\" not in PM", "1 in PM", "len(PM)", "PM.a", "PM[S]"}
+	case "sharedtree": // a sub-tree in two slots of its parent, 40 (30) levels deep: under 300 characters
+		return []string{strings.Repeat("(", 40) + "a" + strings.Repeat(" ?: 1)", 40), "1" + strings.Repeat(" in 1..2", 30)}
 	case "widetext": // several lines, multi-byte runes before the place an error is reported at
 		return []string{"S == \"こんにちは世界、こんにちは世界\" ||\nXs[10] > 0", "\"日本語日本語日本語\" +\n1", "\"\U0001F600\U0001F600\U0001F600\" == S ||\n\nBoom(1) > 0",
 			"[\"ééééééééé\",\n Zq]", "\"世界世界世界世界\"\n  @", "S == \"é\" ? 1 :\n\t(\"世界\" + 1)"}
